@@ -314,7 +314,10 @@ static void encode_imm_operation(struct instr *instrc) {
       ((instrc->opd[0].reg & REG_MASK) == al &&
        instrc->cons != MAX_UNSIGNED_32BIT &&
        IN_RANGE(instrc->cons, MAX_SIGNED_8BIT + 1, NEG64BIT - 1) &&
-       !(IN_RANGE(instrc->cons, NEG80BIT, NEG64BIT - 1))))
+       !(IN_RANGE(instrc->cons, NEG80BIT, NEG64BIT - 1)) &&
+       // 0xffffff80..0xffffffff is a sign-extended imm8 for a 32-bit
+       // operand: it takes the 83 /r ib form, which has no accumulator variant
+       !(IN_RANGE(instrc->cons, NEG80_32BIT, MAX_UNSIGNED_32BIT))))
     instrc->key++;
 }
 
